@@ -198,6 +198,7 @@ func (tree *HTree) dump(path string) {
 	}
 	f.Close()
 	f = nil
+	verifPoint("fs.rename", tmp, path)
 	os.Rename(tmp, path)
 	logger.Infof("htree dumped %s, min leaf %d, max leaf %d", path, minleaf, maxleaf)
 }
